@@ -8,9 +8,10 @@ for f in sys.argv[3:]:
     for ln in open(f):
         m = re.match(r'(C\d+-\d+) check=(\w+) rc=(\d+)\s*(?:what: (.*))?', ln)
         if m:
-            res.setdefault(m.group(1), []).append((m.group(2), int(m.group(3)), (m.group(4) or '').strip()))
+            res.setdefault(m.group(1), {})[m.group(2)] = (m.group(2), int(m.group(3)), (m.group(4) or '').strip())      # a later log overrides an earlier one
 root = os.path.join(os.path.dirname(os.path.abspath(__file__)), '..', 'seeded')
 for sid, lst in sorted(res.items()):
+    lst = list(lst.values())
     p = os.path.join(root, sid, 'meta.json')
     meta = json.load(open(p))
     det = [c for c, rc, _ in lst if rc == 1]
